@@ -172,8 +172,20 @@ def MakeID3v1(id3):
             text = b""
         v1[name] = text + (b"\x00" * (30 - len(text)))
 
-    if "COMM" in id3:
-        cmnt = id3["COMM"].text[0].encode('latin1', 'replace')[:28]
+    # frames of a real tag are keyed by their HashKey ("COMM:desc:lang"),
+    # the dict coming from ParseID3v1 uses the plain frame ID
+    comm = None
+    for key in ["COMM", "COMM:ID3v1 Comment:eng"]:
+        if key in id3:
+            comm = id3[key]
+            break
+    else:
+        comm_keys = sorted(k for k in id3.keys() if k.startswith("COMM:"))
+        if comm_keys:
+            comm = id3[comm_keys[0]]
+
+    if comm is not None and comm.text:
+        cmnt = comm.text[0].encode('latin1', 'replace')[:28]
     else:
         cmnt = b""
     v1["comment"] = cmnt + (b"\x00" * (29 - len(cmnt)))
